@@ -83,7 +83,7 @@ def doc_cases(rng, n, prefix, delims=None, kinds=None, p_unwrap=0.3, p_mut=0.15,
                                   "unreg": 0, "unwrap": 0, "inline": 0, "maxdepth": 0}
     for i in range(n):
         ds, de = rng.choice(delims or G.DELIMS)
-        tl, rm = rng.choice(tagnames or G.TAGNAMES[:2])
+        tl, rm = rng.choice(tagnames or (G.TAGNAMES[:2] + G.TAGNAMES[:2] + [("same", "same")]))
         cfg = (rng.choice(cfgs) if cfgs else G.Cfg(tl, rm, rng.choice(["+00:00", "+0900", "-05:30"]), G.NOW,
                                                    rng.choice([("x", "feature1"), ("x",), ()])))
         dg = G.DocGen(rng, ds, de, cfg, safe_text=safe)
@@ -425,11 +425,11 @@ def parse_json_items(payload):
 ANSI = re.compile(rb"\x1b\[[0-9]*m")
 
 
-def in_list_domain(c, r):
+def in_list_domain(c, r, leading_newline_ok=False):
     """the C15 space: no tag on an unwrap wrapper line, wrapper lines are non-empty code lines, the
-    first byte of the file is not a line break"""
+    first byte of the file is not a line break (C16 additionally covers files that start with one)"""
     s = c["s"]
-    if s[:1] == b"\n":
+    if s[:1] == b"\n" and not leading_newline_ok:
         return False
     for lst in (r.ready, r.pending):
         for entry in lst:
@@ -510,7 +510,7 @@ def oracle_c16(line, m, impl, model):
     s = c["s"]
     src_lines = s.split(b"\n")
     r0 = ref_of(c)
-    dom = (not r0.abstain) and in_list_domain(c, r0)     # line / column expectations only in the C15 space
+    dom = (not r0.abstain) and in_list_domain(c, r0, True)     # line / column expectations only in the C15 space (+ leading line break)
     for js, pr, mk in (("list_json", "list_pretty", "markers"), ("lista_json", "lista_pretty", "markers_all")):
         try:
             items = parse_json_items(impl[js])
@@ -893,7 +893,23 @@ def gen_c06(rng, tier):
                     k += 1
                     cases.append(G.dcase(cid, "<", ">", src, cfg))
                     meta[cid] = {"stream": "probe", "expect": "ab" if rdy else src, "why": f"{name} {perm} targets={targets}"}
+    # both tag names identical: the removal-marker rule decides (an expired `to` alone does not make it ready)
+    for targets in [(), ("x",)]:
+        cfg = G.Cfg("t", "t", "+00:00", G.NOW, targets)
+        for attrs, rdy in (([e], False), (['name="x"'], "x" in targets), ([e, 'name="x"'], "x" in targets), (['name="y"', e], False), ([e, "skip", 'name="x"'], False)):
+            src = "a<t" + "".join(" " + a for a in attrs) + ">x</t>b"
+            cid = f"s{k}"
+            k += 1
+            cases.append(G.dcase(cid, "<", ">", src, cfg))
+            meta[cid] = {"stream": "probe", "expect": "ab" if rdy else src, "why": f"identical tag names, {attrs} targets={targets}"}
     docs = doc_cases(rng, 500 if tier == "quick" else 5000, "d")
+    # targets from a config file are the lines of the file (LF or CR LF), nothing else
+    dsrc = 'a<!-- <removal-marker name=""> -->x<!-- </removal-marker> -->b<!-- <removal-marker name="x"> -->y<!-- </removal-marker> -->c'
+    for j, (cf, exp) in enumerate([("x\n", 'a<!-- <removal-marker name=""> -->x<!-- </removal-marker> -->bc'), ("x\r\n", 'a<!-- <removal-marker name=""> -->x<!-- </removal-marker> -->bc'),
+                                   ("x", 'a<!-- <removal-marker name=""> -->x<!-- </removal-marker> -->bc'), ("", dsrc), ("\n", 'ab<!-- <removal-marker name="x"> -->y<!-- </removal-marker> -->c'),
+                                   ("y\r\nx\r\n", 'a<!-- <removal-marker name=""> -->x<!-- </removal-marker> -->bc')]):
+        cases.append(kcase(f"kf{j}", "C", False, "S", "O", None, None, None, None, 0, G.NOW, None, [], cf, dsrc))
+        meta[f"kf{j}"] = {"stream": "cli-config-file", "expect_stdout": exp}
     # the command line given no target option: no removal-marker is removed, whatever its name
     for j, name in enumerate(["vec![]", "<!-- <", "> -->", "time-limited", "removal-marker", "+00:00", "", "x"]):
         src = f'a<!-- <removal-marker name="{name}"> -->x<!-- </removal-marker> -->b'
@@ -1063,7 +1079,7 @@ def unwrap_doc(rng, ds, de, cfg, unit, depth, tag_units, first_line, k_between=N
     # simple (depth 1) generator with exact expectation; deeper nesting handled by a second shape
     ind = base
     name = cfg.tl
-    pre = [] if first_line else [rng.choice(["a", unit + "a", "あ"])]
+    pre = [] if first_line else [rng.choice(["a", unit + "a", "あ", "", ""])]
     lines = list(pre)
     exp = list(pre)
     nb = rng.randint(0, 4) if k_between is None else k_between
@@ -1148,7 +1164,7 @@ def nested_unwrap_doc(rng, ds, de, unit, depth):
             lines.append((ind + rng.choice([unit, unit + unit]) + "after();", "keep", list(inner)))
         lines.append((ind + "}", "drop", list(blocks)))
         lines.append((ind + ds + "/" + name + de, "drop", list(blocks)))
-    lines.append((rng.choice(["a", unit + "a"]), "keep", []))
+    lines.append((rng.choice(["a", unit + "a", ""]), "keep", []))
     build(1, unit * rng.randint(0, 2), [])
     lines.append((rng.choice(["b", unit + "b"]), "keep", []))
     src = [t for t, _, _ in lines]
